@@ -6,6 +6,7 @@ import (
 	"fmt"
 	"os"
 	"sync"
+	"sync/atomic"
 	"testing"
 	"time"
 
@@ -248,6 +249,63 @@ func TestTracers(t *testing.T) {
 			t.Fatalf("C14 violated: %v", err)
 		}
 	})
+}
+
+// TestBarrierRounds: W workers are released by a spin barrier at the same
+// instant and each issues one mutation on an idle machine, for many rounds: the
+// window in which two callers could both become the queue owner is a few
+// nanoseconds wide, so it needs many simultaneous entries, not long histories.
+func TestBarrierRounds(t *testing.T) {
+	st := ev.G()
+	rounds := st.Pick(4000, 60000) / st.Shards
+	for _, workers := range []int{2, 4} {
+		sc := gen.Schema{States: []gen.StateDef{{Name: "S0"}, {Name: "S1"}, {Name: "S2"}, {Name: "S3"}}}
+		run, err := rec.Exec(rec.Case{Schema: sc}, rec.ExecOpts{})
+		if err != nil {
+			t.Fatal(err)
+		}
+		run.Tracer.SampleTime = false
+		m := run.M
+		var phase atomic.Int64
+		var wg sync.WaitGroup
+		var arrived atomic.Int64
+		for wk := 0; wk < workers; wk++ {
+			wg.Add(1)
+			go func(wk int) {
+				defer wg.Done()
+				name := fmt.Sprintf("S%d", wk)
+				for r := 1; r <= rounds; r++ {
+					arrived.Add(1)
+					for phase.Load() < int64(r) {
+						// spin
+					}
+					m.Toggle1(name, nil)
+				}
+			}(wk)
+		}
+		for r := 1; r <= rounds; r++ {
+			for arrived.Load() < int64(r*workers) {
+				// spin until every worker waits at the barrier
+			}
+			// machine idle?
+			for m.QueueLen() > 0 || m.Transition() != nil {
+			}
+			phase.Store(int64(r))
+		}
+		wg.Wait()
+		time.Sleep(2 * time.Millisecond)
+		txs, evs := run.Tracer.Snapshot()
+		quiescent := m.QueueLen() == 0 && m.Transition() == nil
+		err = checkLog(fmt.Sprintf("barrier/%d workers", workers), txs, evs, run.Names, m.Time(nil), quiescent)
+		run.Close()
+		if err != nil {
+			ev.G().Pin(map[string]any{"kind": "barrier", "workers": workers, "rounds": rounds})
+			t.Fatalf("C14 violated: %v", err)
+		}
+		st.Eval(int64(rounds))
+		st.ClassN("barrier-rounds", int64(rounds))
+		st.NonTrivial(fmt.Sprintf("barrier-%d-%d", workers, st.Shard))
+	}
 }
 
 func TestReplay(t *testing.T) {
